@@ -156,10 +156,12 @@ def generate(group, force_old=None, old=None):
                 trees[file] = ast.parse(open(os.path.join(REPO, file)).read())
             fn = pyarith.find_def(trees[file], t['cls'], t['fn'])
             kw = {k: v for k, v in t['kw'].items() if k != 'file'}
+            lbl = '.'.join(x for x in (t['cls'], t['fn']) if x)
+            how_txt = ' '.join(' '.join(str(x).split()) for x in t['how'])[:160].replace('-/', '- /').replace('/-', '/ -')
             r = pyarith.translate(fn, t['lean'], t['how'], t['binds'], params=t['params'], ret=t['ret'],
-                                  src=f'{file}: {t["cls"]}.{t["fn"]} {" ".join(map(str, t["how"]))}', **kw)
+                                  src=f'{file}: {lbl} {how_txt}', **kw)
             sec = r['lean']
-            info[t['lean']] = {'from': f'{t["cls"]}.{t["fn"]}', 'notes': r['notes']} if r['notes'] else f'{t["cls"]}.{t["fn"]}'
+            info[t['lean']] = {'from': lbl, 'notes': r['notes']} if r['notes'] else lbl
         except (Untranslatable, SyntaxError, OSError) as e:
             lost[t['lean']] = f'{type(e).__name__}: {e}'
             sec = old.get(t['lean'])
@@ -185,6 +187,7 @@ def regenerator(group):
             h.update(open(os.path.join(REPO, f), 'rb').read())
         for f in (__file__, pyarith.__file__):
             h.update(open(f, 'rb').read())
+        h.update(repr([(t['lean'], t['how'], t['binds'], t['params'], t['ret'], t['grid']) for t in GROUPS[group]['targets']]).encode())
         stamp = os.path.join(LEAN, '.lake', f'srcval_{group}.stamp')
         try:
             cached = open(stamp).read() == h.hexdigest()
@@ -227,33 +230,52 @@ def py_value(t, fn, pt):
     import math
     what, node = pyarith.pick(fn, t['how'])
     env = {'p__' + n: pt[n] for n in pt}
-    env.update(math=math, __builtins__={'bin': bin, 'len': len, 'min': min, 'max': max, 'abs': abs, 'int': int, 'sum': sum, 'bool': bool,
+    env.update(math=math, __builtins__={'bin': bin, 'len': len, 'min': min, 'max': max, 'abs': abs, 'int': int, 'sum': sum, 'bool': bool, 'bytes': bytes,
                                         'Exception': Exception, 'ValueError': ValueError})
     for u in t['kw'].get('unwrap', ()):
         env[u] = lambda x: x
-    sub = _Subst(t['binds'])
+    binds = t['binds']
+    fargs, fvals = [], []
+    if what == 'block':          # inputs that the block assigns to (`i += 4`, `self.flag = True`) stay variables: passed as arguments
+        stored = {ast.unparse(x) for st in node for x in ast.walk(st) if isinstance(getattr(x, 'ctx', None), ast.Store)}
+        keep = {k for k in binds if k in stored}
+        binds = {k: v for k, v in binds.items() if k not in keep}
+        import types
+        for k in sorted(keep):
+            base, _, attr = k.partition('.')
+            if attr:
+                if base not in fargs:
+                    fargs.append(base)
+                    fvals.append(types.SimpleNamespace())
+                setattr(fvals[fargs.index(base)], attr, pt[t['binds'][k][0]])
+            else:
+                fargs.append(base)
+                fvals.append(pt[t['binds'][k][0]])
+    sub = _Subst(binds)
     try:
         if what == 'expr':
             v = eval(compile(ast.fix_missing_locations(ast.Expression(body=sub.visit(copy.deepcopy(node)))), '<src>', 'eval'), env)
         else:
             body = [sub.visit(copy.deepcopy(x)) for x in node]
-            f = ast.FunctionDef(name='f__', args=ast.arguments(posonlyargs=[], args=[], kwonlyargs=[], kw_defaults=[], defaults=[]),
+            f = ast.FunctionDef(name='f__', args=ast.arguments(posonlyargs=[], args=[ast.arg(arg=a) for a in fargs], kwonlyargs=[], kw_defaults=[], defaults=[]),
                                 body=body, decorator_list=[], type_params=[])
             exec(compile(ast.fix_missing_locations(ast.Module(body=[f], type_ignores=[])), '<src>', 'exec'), env)
             if t['ret'] == 'raises':
                 try:
-                    env['f__']()
+                    env['f__'](*fvals)
                     v = False
                 except Exception:
                     v = True
             else:
-                v = env['f__']()
+                v = env['f__'](*fvals)
     except Exception:
         return 'exc'
-    if isinstance(v, (bytes, bytearray)):
+    if isinstance(v, (bytes, bytearray)) and t['ret'] != 'Bytes':
         v = int.from_bytes(v, 'big')
     if t['ret'] in ('Bool', 'raises'):
         return 'true' if v else 'false'
+    if t['ret'] == 'Bytes':
+        return '[' + ','.join(str(b) for b in v) + ']'
     return str(int(v))
 
 
@@ -261,8 +283,7 @@ def validate(group, defs, per_def=300):
     """Differential validation of the TRANSLATOR: the regenerated Lean definition, evaluated by Lean, must return on every
     sampled grid point what the Python source returns (points where Python raises are skipped).  -> {definition: reason}."""
     g = GROUPS[group]
-    lines = [f'import TonVerif.Generated.{group}', 'open TonVerif TonVerif.Generated',
-             'def parseInts (s : String) : List Int := (s.splitOn " ").filterMap String.toInt?']
+    lines = [f'import TonVerif.Generated.{group}', 'open TonVerif TonVerif.Generated'] + PRELUDE
     work = []
     trees = {}
     for t in g['targets']:
@@ -274,12 +295,12 @@ def validate(group, defs, per_def=300):
         for p_ in ps:
             pts = [x + [v] for x in pts for v in t['grid'][p_]]
         pts = pts[::max(1, len(pts) // per_def)]
-        enc = ' '.join(str(int(v)) for pt in pts for v in pt)
+        enc = ' '.join(_enc(v) for pt in pts for v in pt)
         lets = ' '.join(f'let {q} : {decl[q]} := {_conv(q, decl[q])};' for q in ps)
         pat = ', '.join('x_' + q for q in ps)
         lines.append(f'def v_{t["lean"]} : List Int := parseInts "{enc}"')
         lines.append(f'partial def go_{t["lean"]} : List Int → List String → List String\n'
-                     f'  | {" :: ".join("x_" + q for q in ps)} :: rest, acc => {lets} go_{t["lean"]} rest ((if decide ({t["lean"]}_sideOk {" ".join(ps)}) then toString ({t["lean"]} {" ".join(ps)}) else "?") :: acc)\n'
+                     f'  | {" :: ".join("x_" + q for q in ps)} :: rest, acc => {lets} go_{t["lean"]} rest ((if decide ({t["lean"]}_sideOk {" ".join(ps)}) then (toString ({t["lean"]} {" ".join(ps)})).replace " " "" else "?") :: acc)\n'
                      f'  | _, acc => acc.reverse')
         lines.append(f'#eval IO.println (s!"VAL {t["lean"]} " ++ String.intercalate " " (go_{t["lean"]} v_{t["lean"]} []))')
         work.append((t, pts))
@@ -316,7 +337,25 @@ def validate(group, defs, per_def=300):
 # ---------------------------------------------------------------------------- search hook
 
 def _conv(name, ty):
-    return {'Nat': f'(x_{name}).toNat', 'Int': f'x_{name}', 'Bool': f'(x_{name} != 0)'}[ty]
+    return {'Nat': f'(x_{name}).toNat', 'Int': f'x_{name}', 'Bool': f'(x_{name} != 0)', 'Bytes': f'(decodeBytes (x_{name}).toNat)'}[ty]
+
+
+def _enc(v):
+    """grid values travel as integers; bytes as the big-endian number of 01 ++ bytes"""
+    return str(int.from_bytes(b'\x01' + v, 'big')) if isinstance(v, (bytes, bytearray)) else str(int(v))
+
+
+def _dec(v, ty):
+    if ty == 'Bool':
+        return bool(v)
+    if ty == 'Bytes':
+        return v.to_bytes((v.bit_length() + 7) // 8, 'big')[1:]
+    return v
+
+
+PRELUDE = ['def parseInts (s : String) : List Int := (s.splitOn " ").filterMap String.toInt?',
+           'partial def digits256 (n : Nat) (acc : List Nat) : List Nat := if n < 256 then n :: acc else digits256 (n / 256) (n % 256 :: acc)',
+           'def decodeBytes (n : Nat) : List Nat := (digits256 n []).drop 1']
 
 
 def diff_points(groups, limit=16, timeout=600):
@@ -324,10 +363,10 @@ def diff_points(groups, limit=16, timeout=600):
     of boundary values and returns ({definition: [ {param: value} ... ] | None}, error text): the points where they differ
     (restricted to the guard, if any); None = could not be evaluated.  Needs only `lake env lean` on the
     Generated/Model/Spec modules (not the proofs).  Grid values travel as strings (parsed in Lean) to keep elaboration cheap."""
-    lines = ['import TonVerif.Model.Cell', 'import TonVerif.Spec.Cell', 'import TonVerif.Spec.TlbPrim']
+    ref_imports = sorted({i for g in groups for i in GROUPS[g].get('ref_imports', [])})
+    lines = ['import TonVerif.Model.Cell', 'import TonVerif.Spec.Cell', 'import TonVerif.Spec.TlbPrim'] + [f'import {i}' for i in ref_imports]
     lines += [f'import TonVerif.Generated.{g}' for g in groups]
-    lines += ['open TonVerif TonVerif.Generated',
-              'def parseInts (s : String) : List Int := (s.splitOn " ").filterMap String.toInt?']
+    lines += ['open TonVerif TonVerif.Generated'] + PRELUDE
     order = []
     for g in groups:
         for t in GROUPS[g]['targets']:
@@ -340,7 +379,7 @@ def diff_points(groups, limit=16, timeout=600):
                 lines.append(f'#eval IO.println (s!"PT {t["lean"]} " ++ (if ({t["lean"]}) == ({t["ref"]}) then "[]" else "[0]"))')
                 continue
             for p_ in ps:
-                vals = ' '.join(str(int(v)) for v in t['grid'][p_])
+                vals = ' '.join(_enc(v) for v in t['grid'][p_])
                 lines.append(f'def g_{t["lean"]}_{p_} : List Int := parseInts "{vals}"')
             prod = f'g_{t["lean"]}_{ps[-1]}.map (fun x_{ps[-1]} => [{", ".join("x_" + q for q in ps)}])'
             for p_ in reversed(ps[:-1]):
@@ -354,7 +393,7 @@ def diff_points(groups, limit=16, timeout=600):
     with open(tmp, 'w') as f:
         f.write('\n'.join(lines) + '\n')
     try:
-        _lake_build([f'TonVerif.Generated.{g}' for g in groups] + ['TonVerif.Model.Cell', 'TonVerif.Spec.Cell'])   # oleans of the current text
+        _lake_build([f'TonVerif.Generated.{g}' for g in groups] + ['TonVerif.Model.Cell', 'TonVerif.Spec.Cell'] + ref_imports)   # oleans of the current text
         p = subprocess.run(['lake', 'env', 'lean', tmp], cwd=LEAN, capture_output=True, text=True, timeout=timeout)
     finally:
         os.unlink(tmp)
@@ -371,7 +410,7 @@ def diff_points(groups, limit=16, timeout=600):
         else:
             for tup in re.findall(r'\[([-0-9, ]+)\]', m.group(1)):
                 vals = [int(x) for x in tup.split(',')]
-                pts.append({n: (bool(v) if decl[n] == 'Bool' else v) for n, v in zip(t['params'], vals)})
+                pts.append({n: _dec(v, decl[n]) for n, v in zip(t['params'], vals)})
         res[t['lean']] = pts
     return res, ((p.stdout + p.stderr)[-400:] if p.returncode else '')
 
